@@ -89,7 +89,10 @@ def check(run):
     n = 200 if run.tier == "quick" else 3000
     scenarios = counter_histories(run, n) + [gen_history(run.rng, run.tier, max_ops=6) for _ in range(n // 2)]
     scenarios, outs, live, res = ceremony.standard_check(
-        run, PROP, scenarios, [history_meta(s) for s in scenarios], ["store_ok"], py_oracle=counter_oracle,
+        run, PROP, scenarios, [history_meta(s) for s in scenarios], ["store_ok"],
+        # the counter that is reported is the one inside the SIGNED authenticator data: the signature is verified over the
+        # returned bytes (independent ECDSA), so a counter patched into the response after signing is seen
+        py_oracle=lambda sc, out: counter_oracle(sc, out) + ceremony.signature_oracle(sc, out),
         coq_files=["theories/Auth/Authenticator.v", "theories/Auth/StoreFacts.v", "theories/Auth/History.v"],
         rule="histories of 2-7 assertions interleaved over 1-3 credentials with and without counters, start values "
              "{0, 1, 2^31-1, 2^31, 2^32-2, 2^32-1, none}, with and without extension requests, some failing assertions and registrations, "
